@@ -557,7 +557,9 @@ func runDisc(c DiscCase) []ev.Violation {
 				if n == beyondCap && beyond {
 					return "discovery/oversized-listing-applied-beyond-cap", fmt.Sprintf("a %d-byte listing (cap discovery.MaxResponseSize=%d) was applied including the model that only occurs after the cap; listing %v", len(poison), discovery.MaxResponseSize, names)
 				}
-				if allowedKnown && !allowed[n] {
+				// encoding/json (the harness) replaces invalid UTF-8 with U+FFFD while Olla's parsers may keep the
+				// raw bytes: the same name, not a corruption
+				if allowedKnown && !allowed[n] && !allowed[strings.ToValidUTF8(n, "\uFFFD")] {
 					return "discovery/poisoned-listing-corrupts-catalogue/" + c.Kind, fmt.Sprintf("endpoint A (%s) had %v, served %s, and now lists %v: %q is neither kept from the previous listing as a whole nor a string of the served body", c.TypeA, c.GoodA, show([]byte(poison)), names, n)
 				}
 			}
